@@ -19,6 +19,21 @@
 
 #include "vp.h"
 #include "vp_vector_inc.h"   /* real util/vector.c with typed pointer arrays */
+
+/* Comparator dispatch: version_set.c calls comparators through the macro
+ * ldb_compare(cmp, x, y) == (cmp)->compare(cmp, x, y).  For the #included
+ * copy the macro is routed through ONE function, so that the function-pointer
+ * restriction (targets: ldb_ikc_compare and the bytewise slice_compare,
+ * asserted by CBMC at this one indirect call) does not depend on the numbering of call sites inside
+ * version_set.c (a changed version_set.c must still build). */
+#include "util/comparator.h"
+static int
+vp_compare(const ldb_comparator_t *cmp, const ldb_slice_t *x, const ldb_slice_t *y) {
+  return cmp->compare(cmp, x, y);
+}
+#undef ldb_compare
+#define ldb_compare(cmp, x, y) vp_compare(cmp, (const ldb_slice_t *)(x), (const ldb_slice_t *)(y))
+
 #include "version_set.c"
 
 #ifndef VP_N0
